@@ -13,11 +13,14 @@ use std::fmt::Debug;
 use std::hash::Hash;
 use std::hash::Hasher;
 use std::num::NonZeroU32;
+#[cfg(not(all(isographlabs_isograph_verif, isographlabs_isograph_verif_shuttle)))]
 use std::sync::atomic::AtomicU32;
 use std::sync::atomic::Ordering;
 use std::u32;
 
 use once_cell::sync::OnceCell;
+#[cfg(all(isographlabs_isograph_verif, isographlabs_isograph_verif_shuttle))]
+use shuttle::sync::atomic::AtomicU32;
 use serde::Deserialize;
 use serde::Deserializer;
 use serde::Serialize;
